@@ -419,7 +419,7 @@ func buildView(name string, fa fileAccess, rootsNum int, rootVals []Val, results
 			if st != "inuse" {
 				return nil, fmt.Errorf("copied stream not in the target file")
 			}
-			d = valueOf(sv, body)
+			d = valueOf(fa, sv, body)
 		}
 		view.Roots = append(view.Roots, Root{S: rootVals[i], D: d})
 		dvals = append(dvals, d)
@@ -450,7 +450,7 @@ func sameSource(src *Source, sg Graph) error {
 		case "val":
 			w := *want.V
 			if w.T == "st" {
-				w = fromStreamDict(streamDictPlain(w), bodyID(src.Bodies[n]), w.CF)
+				w = fromStreamDict(streamDictPlain(w), bodyID(src.Bodies[n]), w.CF, nil)
 			}
 			if normNulls(w).String() != normNulls(*got.V).String() {
 				return fmt.Errorf("object %d: reads %s, written %s", n, got.V, w)
